@@ -328,7 +328,9 @@ def gen_small(comb, cont, n, maxlen, maxops, tag, with_drop=True):
 CO_STACKS = ["", "lim", "take", "enum", "map", "map.lim", "lim.map", "take.lim", "lim.take", "enum.map", "map.take", "enum.take",
              "take.enum", "lim.enum.map",
              # the same adapter twice: the effective take is the smaller bound, the effective limit the outer one (Limit::concurrency_limit)
-             "take.take", "take.map.take", "take.enum.take", "lim.lim", "lim.map.lim"]
+             "take.take", "take.map.take", "take.enum.take", "lim.lim", "lim.map.lim",
+             # enumerate above a map (the futures below it complete in any order)
+             "map.enum", "lim.map.enum", "map.enum.take", "take.map", "enum.lim"]
 
 
 CO_RCOL_STACKS = ["map", "map.lim", "lim.map", "enum.map", "map.take", "lim.enum.map"]
